@@ -171,7 +171,7 @@ def detect_cases(tier, seed):
         out.append(("outside", k, 0))
     if tier == "thorough":
         for k in (1, 5, 20):
-            for pos in range(0, 340, 7):
+            for pos in range(7, 340, 7):
                 out.append(("outside+silent", k, pos))
     return out
 
